@@ -27,7 +27,7 @@ import (
 )
 
 type verifC18Elector struct {
-	mu       sync.Mutex
+	mu       sync.RWMutex
 	identity string
 	count    int
 	led      map[int]bool
@@ -36,8 +36,8 @@ type verifC18Elector struct {
 func (e *verifC18Elector) Run(ctx context.Context)              {}
 func (e *verifC18Elector) SetCallbacks(elector.LeaderCallbacks) {}
 func (e *verifC18Elector) IsLeader(shardId int) bool {
-	e.mu.Lock()
-	defer e.mu.Unlock()
+	e.mu.RLock()
+	defer e.mu.RUnlock()
 	return e.led[shardId]
 }
 func (e *verifC18Elector) GetLeaders() map[int]proxyv1alpha1.EndpointInfo {
